@@ -11,16 +11,17 @@ def _runs(tier):
     runs = []
     if tier == "quick":
         for n in _Q:   # every query, transformer and converting constructor on every (value class x status) of depth <= 2
-            runs.append(_r(n, ["--dim", "2", "--depth", "2", "--consts", "small"], 200))
+            runs.append(_r(n, ["--dim", "2", "--depth", "2", "--consts", "small"], 600))
         for n in ("bds_mpq", "oct_mpq"):   # binary predicates in dimension 3 (disjointness needs three variables)
-            runs.append(_r(n, ["--dim", "3", "--mindim", "3", "--depth", "2", "--consts", "tiny", "--what", "binq", "--poolq-depth", "2"], 120))
+            runs.append(_r(n, ["--dim", "3", "--mindim", "3", "--depth", "2", "--consts", "tiny", "--what", "binq", "--poolq-depth", "2"], 300))
         return runs
     for n in _Q:
-        runs.append(_r(n, ["--dim", "2", "--depth", "3", "--depth-ops", "2", "--consts", "small", "--poolq-depth", "2"], 900))
-        runs.append(_r(n, ["--dim", "2", "--depth", "2", "--consts", "full", "--what", "ops"], 900))
+        runs.append(_r(n, ["--dim", "2", "--depth", "2", "--consts", "full"], 2400))                                   # full constant menu, full operator menus
+        runs.append(_r(n, ["--dim", "2", "--depth", "3", "--consts", "small", "--what", "queries"], 2400))            # every query on every state class of depth 3
+    runs.append(_r("bds_mpq", ["--dim", "3", "--mindim", "3", "--depth", "2", "--consts", "small", "--what", "binq", "--poolq-depth", "2", "--poolsigs", "1"], 2400))
+    runs.append(_r("oct_mpq", ["--dim", "3", "--mindim", "3", "--depth", "3", "--consts", "tiny", "--what", "binq", "--poolq-depth", "2", "--poolsigs", "1"], 2400))
     for n in ("bds_mpq", "oct_mpq"):
-        runs.append(_r(n, ["--dim", "3", "--mindim", "3", "--depth", "2", "--consts", "small", "--what", "binq", "--poolq-depth", "2", "--poolsigs", "1"], 900))
-        runs.append(_r(n, ["--dim", "3", "--mindim", "3", "--depth", "1", "--consts", "small"], 600))
+        runs.append(_r(n, ["--dim", "3", "--mindim", "3", "--depth", "1", "--consts", "small"], 1200))               # all operators in dimension 3
     return runs
 CHECKS = {
     "C04": {"runs": _runs, "level": "model_checking", "parallel_runs": 2,
